@@ -68,9 +68,9 @@ static void start_watchdog_once()
 
 static void sink_a(const char* id, int64_t a, int64_t b)
 {
+    if (!strcmp(id, "stop_call")) { ++SA.seen[id]; return; }     // (a stop call is not progress of the search: the watchdog's own stop comes through here)
     g_activity.fetch_add(1, std::memory_order_relaxed);
     long n = ++SA.seen[id];
-    if (!strcmp(id, "stop_call")) { return; }
     if (!strcmp(id, "node") || !strcmp(id, "qnode"))
     {
         SA.visits++;
@@ -731,9 +731,12 @@ int cmd_schedules(const Args& a)
     std::thread reader([&] { uci.loop(); reader_done.store(true); });
     // the data-race half of C06: is the flag the two threads share an atomic object? (compile-time fact of the code under test)
     const bool flag_atomic = !std::is_same_v<decltype(Search::stop_search), bool>;
-    long n = 0;
+    long n = 0, lost_total = 0;
     for (auto& line : plan)
     {
+        // three schedules whose stop was never answered are verdict enough: a searcher that cannot be brought down blocks the
+        // reader of every later schedule as well
+        if (lost_total >= 3) break;
         std::vector<std::string> fld;
         std::string cur;
         for (char c : line) { if (c == '|') { fld.push_back(cur); cur = ""; } else cur += c; }
@@ -790,11 +793,12 @@ int cmd_schedules(const Args& a)
             std::string bm;
             bool got = out.wait_line("bestmove", wait_ms, &bm);
             bool lost = !got;
+            if (lost) lost_total++;
             if (!got)
             {
                 // bring the search down by calling the searcher's stop() directly, then go on
                 if (uci.search) uci.search->stop();
-                out.wait_line("bestmove", 30000, &bm);
+                out.wait_line("bestmove", 8000, &bm);
             }
             std::this_thread::sleep_for(std::chrono::milliseconds(20));
             long vas, vis;
@@ -842,11 +846,12 @@ int cmd_schedules(const Args& a)
         long vas, vis;
         { std::lock_guard<std::mutex> l(sm); vas = visits_after_stopB; vis = visitsB; }
         bool lost = sent_stop && !got;
+        if (lost) lost_total++;
         if (!got)
         {
             // the search is still running: bring it down with a second stop so that the session can go on
             in.push("stop");
-            out.wait_line("bestmove", 30000, &bm);
+            out.wait_line("bestmove", 8000, &bm);
             std::lock_guard<std::mutex> l(sm);
             vas = visits_after_stopB;
         }
